@@ -128,10 +128,116 @@ func groupProgram(prefix string, g kyber.Group, seed uint64, n int) {
 	}
 }
 
+// historyProgram: a pseudo-random straight-line program in which receivers are
+// existing objects (values overwritten in place, re-decoded in place, set on
+// used receivers), operands alias receivers, and payload/byte lengths sit at
+// boundaries. Every object is printed at the end.
+func historyProgram(prefix string, g kyber.Group, seed uint64, n int) {
+	st := seed*0x9E3779B97F4A7C15 + 0xabcdef
+	for _, c := range []byte(prefix) {
+		st = st*31 + uint64(c)
+	}
+	rnd := func(m int) int {
+		st += 0x9E3779B97F4A7C15
+		z := st
+		z = (z ^ (z >> 30)) * 0xBF58476D1CE4E5B9
+		z = (z ^ (z >> 27)) * 0x94D049BB133111EB
+		z ^= z >> 31
+		return int(z % uint64(m))
+	}
+	q := order(g)
+	var sc []kyber.Scalar
+	var pt []kyber.Point
+	for i := 0; i < 4; i++ {
+		sc = append(sc, mkScalar(g, edge(rnd(64), q, seed)))
+		pt = append(pt, g.Point().Mul(sc[i], nil))
+	}
+	for i := 0; i < n; i++ {
+		a, b, d := rnd(len(sc)), rnd(len(sc)), rnd(len(sc))
+		pa, pb, pd := rnd(len(pt)), rnd(len(pt)), rnd(len(pt))
+		label := fmt.Sprintf("%s/step/%03d", prefix, i)
+		func() {
+			defer func() {
+				if r := recover(); r != nil {
+					emit(label+"/panic", []byte(fmt.Sprint(r)))
+				}
+			}()
+			switch rnd(16) {
+			case 0:
+				sc[d].Add(sc[a], sc[b])
+			case 1:
+				sc[d].Sub(sc[a], sc[b])
+			case 2:
+				sc[d].Mul(sc[a], sc[b])
+			case 3:
+				sc[d].Neg(sc[a])
+			case 4:
+				if !sc[b].Equal(g.Scalar().Zero()) {
+					sc[d].Div(sc[a], sc[b])
+				}
+			case 5:
+				if !sc[a].Equal(g.Scalar().Zero()) {
+					sc[d].Inv(sc[a])
+				}
+			case 6:
+				sc[d].SetInt64(int64(rnd(5)) - 2)
+			case 7:
+				bb, _ := sc[a].MarshalBinary()
+				_ = sc[d].UnmarshalBinary(bb)
+			case 8:
+				if rnd(3) == 0 {
+					// inputs longer than the modulus, up to and beyond 64 bytes
+					long := make([]byte, []int{33, 63, 64, 65, 66 + rnd(40)}[rnd(5)])
+					for j := range long {
+						long[j] = byte(rnd(256))
+					}
+					sc[d].SetBytes(long)
+				} else {
+					sc[d].SetBytes(edge(rnd(64), q, seed).Bytes())
+				}
+			case 9:
+				pt[pd].Add(pt[pa], pt[pb])
+			case 10:
+				pt[pd].Sub(pt[pa], pt[pb])
+			case 11:
+				pt[pd].Neg(pt[pa])
+			case 12:
+				pt[pd].Mul(sc[a], pt[pa])
+			case 13:
+				pt[pd].Mul(sc[a], nil)
+			case 14:
+				bb, _ := pt[pa].MarshalBinary()
+				_ = pt[pd].UnmarshalBinary(bb)
+			default:
+				l := pt[pd].EmbedLen()
+				ln := []int{0, 1, l, l - 1, rnd(l + 1)}[rnd(5)]
+				data := make([]byte, ln, ln+1)
+				for j := range data {
+					data[j] = byte(rnd(256))
+				}
+				pt[pd].Embed(data, stream(label, seed))
+				dd, err := pt[pd].Data()
+				emit(label+fmt.Sprintf("/data/%v", err != nil), dd)
+			}
+		}()
+	}
+	for i, s := range sc {
+		emit(fmt.Sprintf("%s/final/s%d", prefix, i), enc(s))
+	}
+	for i, p := range pt {
+		emit(fmt.Sprintf("%s/final/P%d", prefix, i), enc(p))
+	}
+}
+
 func common(seed uint64, n int) {
 	ed := edwards25519.NewBlakeSHA256Ed25519()
 	groupProgram("common/ed25519", ed, seed, n)
+	for k := 0; k < n/2+1; k++ {
+		historyProgram(fmt.Sprintf("common/history/ed25519/%d", k), ed, seed+uint64(k), 40)
+	}
 	cs := circl.NewSuiteBLS12381()
+	historyProgram("common/history/circl.G1", cs.G1(), seed, 30)
+	historyProgram("common/history/circl.G2", cs.G2(), seed, 20)
 	groupProgram("common/circl.G1", cs.G1(), seed, n/2+1)
 	groupProgram("common/circl.G2", cs.G2(), seed, n/4+1)
 	for i := 0; i < n/4+1; i++ {
